@@ -119,7 +119,22 @@ def exhaustive():
     return out
 
 
-CORPUS = [
+def passthrough_then_backlog(cap, k, m, end):
+    """k values pass end to end one by one, then the receiver falls behind by m values, then the stream ends (close by
+    the sender / cancel) and is drained: internal storage that was cycled through k times before it has to grow"""
+    mv, v = [], 1
+    for _ in range(k):
+        mv += ["s%d" % v, "r0"]
+        v += 1
+    for _ in range(m):
+        mv.append("s%d" % v)
+        v += 1
+    mv.append(end)
+    return "stage=New cap=%d | " % cap + " ".join(mv + ["r0"] * (m + 3) + ["z"])
+
+
+CORPUS = [passthrough_then_backlog(c, k, m, e) for (c, k, m, e) in
+          [(0, 20, 17, "c0"), (0, 16, 33, "x"), (2, 40, 70, "c0"), (1, 17, 18, "x"), (4, 33, 40, "c0"), (0, 3, 20, "c0")]] + [
     # bursts: sends and the cancel / close made back to back, so that the pump meets them with values still in `in`
     "stage=New cap=4 | bs1,s2,s3,s4,s5,x r0 r0 r0 r0 r0 r0 r0 r0 z",
     "stage=New cap=2 | s1 s2 bs3,s4,s5,x r0 r0 r0 r0 r0 r0 r0 r0 z",
